@@ -128,6 +128,16 @@ type Case struct {
 	// at once. Applies where that end's close is observed by the peer (see runOnce).
 	TailC int `json:"tail_c,omitempty"`
 	TailT int `json:"tail_t,omitempty"`
+	// AuthHost / AuthPort: the authority of the CONNECT ("" = target.test, 0 = 443; -1 = the port
+	// the target really listens on): a name, an IPv4 literal or a bracketed IPv6 literal, and any
+	// port - 80 and 443 included, which are some scheme's default but the port to dial all the same.
+	AuthHost string `json:"auth_host,omitempty"`
+	AuthPort int    `json:"auth_port,omitempty"`
+	// WriteBps / ReadBps (shaped listener): the listener's write / read bitrate is lowered to this
+	// many BYTES per second (SetWriteBitrate / SetReadBitrate): a throttled link. Delivery is then
+	// given size/bitrate more time; what arrives must still be what was sent.
+	WriteBps int `json:"write_bps,omitempty"`
+	ReadBps  int `json:"read_bps,omitempty"`
 }
 
 // ShapeCfg is one action of a traffic shape for the URLs of the exchanges before the CONNECT,
@@ -228,16 +238,31 @@ func (dialTimeoutErr) Temporary() bool { return true }
 // opaqueConn hides every optional method of the connection it wraps.
 type opaqueConn struct{ net.Conn }
 
-func connectHead(kind string) []byte {
+func connectHead(kind, authority string) []byte {
 	switch kind {
 	case "close":
-		return []byte("CONNECT target.test:443 HTTP/1.1\r\nHost: target.test:443\r\nConnection: close\r\n\r\n")
+		return []byte("CONNECT " + authority + " HTTP/1.1\r\nHost: " + authority + "\r\nConnection: close\r\n\r\n")
 	case "http10":
-		return []byte("CONNECT target.test:443 HTTP/1.0\r\nHost: target.test:443\r\n\r\n")
+		return []byte("CONNECT " + authority + " HTTP/1.0\r\nHost: " + authority + "\r\n\r\n")
 	case "http10-keep-alive":
-		return []byte("CONNECT target.test:443 HTTP/1.0\r\nHost: target.test:443\r\nConnection: keep-alive\r\n\r\n")
+		return []byte("CONNECT " + authority + " HTTP/1.0\r\nHost: " + authority + "\r\nConnection: keep-alive\r\n\r\n")
 	}
-	return []byte("CONNECT target.test:443 HTTP/1.1\r\nHost: target.test:443\r\n\r\n")
+	return []byte("CONNECT " + authority + " HTTP/1.1\r\nHost: " + authority + "\r\n\r\n")
+}
+
+func minPositive(a, b int) int {
+	if a <= 0 || (b > 0 && b < a) {
+		return b
+	}
+	return a
+}
+
+// hostOf is the host of an authority, with or without a port, without brackets.
+func hostOf(authority string) string {
+	if h, _, err := net.SplitHostPort(authority); err == nil {
+		return h
+	}
+	return strings.TrimSuffix(strings.TrimPrefix(authority, "["), "]")
 }
 
 func (s Stream) bytes() []byte { return kit.Bytes(s.Seed, s.Size) }
@@ -452,6 +477,22 @@ func runOnce(c Case, T time.Duration) (v kit.Verdict) {
 	}
 	defer tl.Close()
 	accepted := make(chan net.Conn, 4)
+	authHost, authPort := "target.test", "443"
+	if c.AuthHost != "" {
+		authHost = c.AuthHost
+	}
+	switch {
+	case c.AuthPort > 0:
+		authPort = fmt.Sprint(c.AuthPort)
+	case c.AuthPort < 0:
+		_, authPort, _ = net.SplitHostPort(tl.Addr().String())
+	}
+	authority := authHost + ":" + authPort
+	// (the harness routes by host, whatever the port: an authority that arrives altered
+	// is a finding of its own, not a dial that fails)
+	isTarget := func(addr string) bool { return hostOf(addr) == hostOf(authority) }
+	var seenMu sync.Mutex
+	var downstreamSaw, targetDials []string
 	targetEarly, downCoalesce := 0, 0
 	if (c.DownCoalesce && c.Route == "downstream") || c.TargetFirst {
 		targetEarly = 16
@@ -505,6 +546,9 @@ func runOnce(c Case, T time.Duration) (v kit.Verdict) {
 		if twinL != nil && strings.HasPrefix(host, "twin.test") {
 			return twinL.Addr().String()
 		}
+		seenMu.Lock()
+		downstreamSaw = append(downstreamSaw, host)
+		seenMu.Unlock()
 		return ""
 	})
 
@@ -524,7 +568,7 @@ func runOnce(c Case, T time.Duration) (v kit.Verdict) {
 			return dl.Addr().String()
 		case strings.HasPrefix(addr, "origin.test") && preludeOrigin != nil:
 			return preludeOrigin.Addr
-		case strings.HasPrefix(addr, "target.test"):
+		case isTarget(addr):
 			if c.Unreachable {
 				return ""
 			}
@@ -537,11 +581,18 @@ func runOnce(c Case, T time.Duration) (v kit.Verdict) {
 	if c.TimeoutMs > 0 {
 		p.SetTimeout(time.Duration(c.TimeoutMs) * time.Millisecond)
 	}
-	dial := dialer.Dial
+	dial := func(network, addr string) (net.Conn, error) {
+		if isTarget(addr) {
+			seenMu.Lock()
+			targetDials = append(targetDials, addr)
+			seenMu.Unlock()
+		}
+		return dialer.Dial(network, addr)
+	}
 	if c.Unreachable && c.DialTimeout {
 		inner := dial
 		dial = func(network, addr string) (net.Conn, error) {
-			if strings.HasPrefix(addr, "target.test") {
+			if isTarget(addr) {
 				return nil, &net.OpError{Op: "dial", Net: network, Err: dialTimeoutErr{}}
 			}
 			return inner(network, addr)
@@ -554,7 +605,7 @@ func runOnce(c Case, T time.Duration) (v kit.Verdict) {
 			if err != nil {
 				return nil, err
 			}
-			if !strings.HasPrefix(addr, "target.test") {
+			if !isTarget(addr) {
 				return conn, nil // the second tunnel half-closes both ways at once
 			}
 			return opaqueConn{conn}, nil
@@ -563,7 +614,7 @@ func runOnce(c Case, T time.Duration) (v kit.Verdict) {
 	if c.DialDelayMs > 0 {
 		inner := dial
 		dial = func(network, addr string) (net.Conn, error) {
-			if strings.HasPrefix(addr, "target.test") || strings.HasPrefix(addr, "downstream.test") {
+			if isTarget(addr) || strings.HasPrefix(addr, "downstream.test") {
 				time.Sleep(time.Duration(c.DialDelayMs) * time.Millisecond)
 			}
 			return inner(network, addr)
@@ -574,7 +625,7 @@ func runOnce(c Case, T time.Duration) (v kit.Verdict) {
 		inner := dial
 		dial = func(network, addr string) (net.Conn, error) {
 			conn, err := inner(network, addr)
-			if err != nil || !strings.HasPrefix(addr, "target.test") {
+			if err != nil || !isTarget(addr) {
 				return conn, err
 			}
 			tconn := tls.Client(conn, legConfig(c.TargetLeg, "target.test"))
@@ -590,7 +641,7 @@ func runOnce(c Case, T time.Duration) (v kit.Verdict) {
 		inner := dial
 		dial = func(network, addr string) (net.Conn, error) {
 			conn, err := inner(network, addr)
-			if t, ok := conn.(*net.TCPConn); ok && err == nil && (strings.HasPrefix(addr, "target.test") || strings.HasPrefix(addr, "downstream.test")) {
+			if t, ok := conn.(*net.TCPConn); ok && err == nil && (isTarget(addr) || strings.HasPrefix(addr, "downstream.test")) {
 				return &eofTailConn{TCPConn: t}, nil
 			}
 			return conn, err
@@ -630,6 +681,12 @@ func runOnce(c Case, T time.Duration) (v kit.Verdict) {
 				if rw.Code != 200 {
 					shapeErr = fmt.Sprintf("%d %s", rw.Code, rw.Body.String())
 				}
+			}
+			if c.WriteBps > 0 {
+				tsl.SetWriteBitrate(int64(c.WriteBps) * 8)
+			}
+			if c.ReadBps > 0 {
+				tsl.SetReadBitrate(int64(c.ReadBps) * 8)
 			}
 			return tsl
 		}
@@ -707,6 +764,13 @@ func runOnce(c Case, T time.Duration) (v kit.Verdict) {
 	defer conn.Close()
 
 	sh := shapeOf(c)
+	// a throttled listener: either bucket may pace either direction (and both share it), so
+	// everything the case sends may take (bytes of both streams)/(the lower bitrate), plus the
+	// bucket's one-second granularity; patience grows with the bound T of this run
+	var slack time.Duration
+	if bps := minPositive(c.WriteBps, c.ReadBps); c.Shaped && bps > 0 {
+		slack = time.Duration((len(c2t)+len(t2c))/bps+2) * time.Second * time.Duration(T/kit.T())
+	}
 	early := 0
 	if c.Early != "none" {
 		early = c.EarlyLen
@@ -744,7 +808,7 @@ func runOnce(c Case, T time.Duration) (v kit.Verdict) {
 		conn.SetDeadline(time.Time{})
 		time.Sleep(time.Duration(c.PreludePauseMs) * time.Millisecond)
 	}
-	head := connectHead(c.Head)
+	head := connectHead(c.Head, authority)
 	conn.SetWriteDeadline(time.Now().Add(10 * time.Second))
 	first := early
 	if c.Early == "split" {
@@ -782,6 +846,29 @@ func runOnce(c Case, T time.Duration) (v kit.Verdict) {
 		return kit.Failf("C04/connect/"+connSh+"/"+class, "route %s, dial returns after %d ms, proxy timeout %d ms (0 = 60 s): %v", sh, c.DialDelayMs, c.TimeoutMs, err)
 	}
 	conn.SetReadDeadline(time.Time{})
+	// the target of the tunnel is the authority the client named: host and port as sent
+	if c.Route == "direct" {
+		seenMu.Lock()
+		for _, a := range targetDials {
+			if a != authority {
+				v.Addf("C04/connect/direct/authority-differs-at-dial", "CONNECT %s (client leg %q): the dial function was asked for %q", authority, c.ClientLeg, a)
+				break
+			}
+		}
+		seenMu.Unlock()
+	} else {
+		seenMu.Lock()
+		for _, a := range downstreamSaw {
+			if a != authority {
+				v.Addf("C04/connect/downstream/authority-differs-at-downstream-proxy", "CONNECT %s (client leg %q): the downstream proxy was asked for %q", authority, c.ClientLeg, a)
+				break
+			}
+		}
+		seenMu.Unlock()
+	}
+	if len(v) > 0 {
+		return v
+	}
 	if c.Unreachable && c.Route == "direct" {
 		if res.StatusCode != 502 || res.Header.Get("Warning") == "" {
 			return kit.Failf("C04/connect/"+unreachSh+"/not-502-with-warning", "CONNECT to an unreachable target answered %d, Warning %q", res.StatusCode, res.Header["Warning"])
@@ -991,8 +1078,8 @@ func runOnce(c Case, T time.Duration) (v kit.Verdict) {
 		return v
 	}
 	// delivery while both ends are open
-	okT := kit.Eventually(T, func() bool { return targetIn.len() >= cFirst })
-	okC := kit.Eventually(T, func() bool { return clientIn.len() >= tFirst })
+	okT := kit.Eventually(T+slack, func() bool { return targetIn.len() >= cFirst })
+	okC := kit.Eventually(T+slack, func() bool { return clientIn.len() >= tFirst })
 	earlyShape := "early-" + c.Early
 	if !okT {
 		v.Addf("C04/transfer/"+sh+"/"+earlyShape+"/timeout-client-bytes-not-delivered", "target received %d of the %d bytes the client wrote (early data %d, %s) within %v of the last write, both ends open", targetIn.len(), cFirst, early, c.Early, T)
@@ -1026,7 +1113,7 @@ func runOnce(c Case, T time.Duration) (v kit.Verdict) {
 	}
 
 	expectEOF := func(col *collector, who, closer string) bool {
-		if !waitDone(col, T) {
+		if !waitDone(col, T+slack) {
 			v.Addf("C04/eos/"+closer+"/"+who+"-never-sees-eof-timeout", "%s: the %s saw no end-of-stream within %v after the other end finished sending and closed (all earlier bytes had been delivered; proxy idle timeout is 60 s)", c.Closer, who, T)
 			return false
 		}
@@ -1214,6 +1301,11 @@ func genCase(t *rapid.T) Case {
 		c.TwinSeed = rapid.Uint64Range(1, 1<<20).Draw(t, "twin_seed")
 	}
 	c.TargetFirst = !c.Unreachable && rapid.IntRange(0, 3).Draw(t, "target_first") == 0
+	// the authority of the CONNECT: host form x port
+	if rapid.Bool().Draw(t, "authority") {
+		c.AuthHost = rapid.SampledFrom([]string{"", "192.0.2.7", "[2001:db8::7]"}).Draw(t, "auth_host")
+		c.AuthPort = rapid.SampledFrom([]int{80, 443, 8080, 8443, 1, 65535, -1, 80, 443}).Draw(t, "auth_port")
+	}
 	// the transport of each leg, and last bytes that leave together with the close
 	legs := []string{"", "", "", "tls12", "tls13", "eof-with-data"}
 	if !c.Shaped {
@@ -1241,6 +1333,30 @@ func genCase(t *rapid.T) Case {
 		if c.TailT > c.T2C.Size {
 			c.TailT = c.T2C.Size
 		}
+	}
+	if c.Shaped && !c.Unreachable && rare(t, "throttled_listener", 5) {
+		// a lowered bitrate (streams kept small: a few seconds per case)
+		bps := rapid.SampledFrom([]int{4096, 8192}).Draw(t, "bps")
+		if rapid.Bool().Draw(t, "throttle_writes") {
+			c.WriteBps = bps
+		} else {
+			c.ReadBps = bps
+		}
+		if c.C2T.Size > 8192 {
+			c.C2T.Size = 8192
+		}
+		if c.T2C.Size > 8192 {
+			c.T2C.Size = 8192
+		}
+		c.T2C.Writes, c.C2T.Writes = []int{65536}, []int{65536}
+		c.Twin, c.TwinWhileOpen, c.TwinSize, c.TwinSeed = false, false, 0, 0
+		if c.TailC > c.C2T.Size {
+			c.TailC = c.C2T.Size
+		}
+		if c.TailT > c.T2C.Size {
+			c.TailT = c.T2C.Size
+		}
+		return c
 	}
 	switch {
 	case c.Unreachable:
@@ -1328,6 +1444,22 @@ func classes(c Case) []string {
 	if c.IdleMs > 0 && c.TimeoutMs > 0 && c.IdleMs > c.TimeoutMs {
 		out = append(out, "idle-past-proxy-timeout-then-traffic")
 	}
+	if c.Shaped && c.WriteBps > 0 {
+		out = append(out, "shaped-listener-with-lowered-write-bitrate")
+	}
+	if c.Shaped && c.ReadBps > 0 {
+		out = append(out, "shaped-listener-with-lowered-read-bitrate")
+	}
+	if c.AuthHost != "" || c.AuthPort != 0 {
+		form := map[bool]string{true: "name", false: "ip-literal"}[c.AuthHost == ""]
+		if strings.HasPrefix(c.AuthHost, "[") {
+			form = "ipv6-literal"
+		}
+		out = append(out, "connect-authority-"+form)
+	}
+	if port := c.AuthPort; port == 80 || ((port == 443 || port == 0) && isTLSLeg(c.ClientLeg)) {
+		out = append(out, "connect-to-the-default-port-of-the-listener-scheme")
+	}
 	if c.ClientLeg != "" {
 		out = append(out, "client-leg-"+c.ClientLeg)
 	}
@@ -1381,7 +1513,7 @@ func TestTunnel(t *testing.T) {
 
 var propOld = &kit.Prop[Case]{
 	ID: "C04", Name: "old-tunnel",
-	Rule: "tunnels (direct and through the downstream proxy, plain and shaped listener) kept open and in use for longer than any set-up deadline (10.5 s quick, 31 s thorough), or for 4.5 s under a proxy timeout of 3 s (a byte each way every 500 ms: never idle), or for 5 s under a proxy timeout of 2 s with one end only sending (a byte every 350 ms, the other end silent), before the two streams are written and the tunnel is ended; non-trivial = always",
+	Rule: "tunnels (direct and through the downstream proxy, plain and shaped listener) kept open and in use for longer than any set-up deadline (10.5 s quick, 31 s thorough), or for 4.5 s under a proxy timeout of 3 s (a byte each way every 500 ms: never idle), or for 5 s under a proxy timeout of 2 s with one end only sending (a byte every 350 ms, the other end silent), or on a shaped listener whose write or read bitrate is lowered to 2-4 KiB/s with a 16-32 KiB burst one way, before the two streams are written and the tunnel is ended; non-trivial = always",
 	Run:  run, NonTrivial: func(Case) bool { return true }, Classes: classes, Journal: true,
 }
 
@@ -1425,6 +1557,17 @@ func TestOldTunnel(t *testing.T) {
 				}
 				cases = append(cases, c)
 			}
+		}
+	}
+	// a throttled shaped listener: a burst in one write that needs several one-second bucket
+	// intervals, compared byte for byte; write bitrate (target to client) and read bitrate (the
+	// mirror image, client to target), both routes
+	for _, route := range []string{"direct", "downstream"} {
+		for _, k := range []struct{ wbps, rbps, c2t, t2c int }{{2048, 0, 100, 16384}, {4096, 0, 100, 32768}, {0, 4096, 16384, 100}} {
+			cases = append(cases, Case{
+				C2T: Stream{Size: k.c2t, Seed: 17, Writes: []int{65536}, Pause: []int{0}}, T2C: Stream{Size: k.t2c, Seed: 18, Writes: []int{65536}, Pause: []int{0}},
+				Early: "none", Closer: "client-half", Route: route, Shaped: true, WriteBps: k.wbps, ReadBps: k.rbps,
+			})
 		}
 	}
 	// the dial (of the target, of the downstream proxy) returns after the proxy's timeout
